@@ -65,10 +65,20 @@ MUTATIONS = [
     ("verifier-first-node-only", V, "            for node in fcp.get(category).attempt():\n", "            for node in fcp.get(category).attempt()[:2]:\n", ["C10", "C09"]),
     ("verifier-signal-block-unchecked", V, "        for category in self.categories:\n            self.run_checks(category, fcp).attempt()", "        for category in self.categories:\n            if category == \"signal_block\":\n                continue\n            self.run_checks(category, fcp).attempt()", ["C10"]),
     ("reflection-minmax-swapped", "src/fcp/specs/struct_field.py", '"min_value": self.min_value,\n            "max_value": self.max_value,', '"min_value": self.max_value,\n            "max_value": self.min_value,', ["C12"]),
-    ("reflection-chain-reversed", "src/fcp/specs/type.py", '        ] + self.underlying_type.reflection()\n\n\n@serde(type_check=strict)\nclass DynamicArrayType', '        ][::-1] + self.underlying_type.reflection()\n\n\n@serde(type_check=strict)\nclass DynamicArrayType', ["C12"]),
+    ("reflection-chain-reversed", "src/fcp/specs/type.py", '                "size": self.size,\n            }\n        ] + self.underlying_type.reflection()', '                "size": self.size,\n            }\n        ][::-1] + self.underlying_type.reflection()[::-1]', ["C12"]),
     ("reflection-array-size-dropped", "src/fcp/specs/type.py", '                "size": self.size,', '                "size": 1 if self.size == 2 else self.size,', ["C12"]),
     ("reflection-fieldid-u16", "src/fcp/reflection/reflection.fcp", "field_id @1: u32,", "field_id @1: u16,", ["C12"]),
     ("reflection-signal-fields-dropped", "src/fcp/specs/signal_block.py", "                for name, value in self.fields.items()", "                for name, value in list(self.fields.items())[:1]", ["C12"]),
+    ("dbc-plus8", "plugins/fcp_dbc/fcp_dbc/dbc_writer.py", "(piece.bitstart + 7) if piece.endianess", "(piece.bitstart + 8) if piece.endianess", ["C05"]),
+    ("dbc-plus7-when-multibyte", "plugins/fcp_dbc/fcp_dbc/dbc_writer.py", '(piece.bitstart + 7) if piece.endianess != "little" else piece.bitstart', '(piece.bitstart + 7) if piece.endianess != "little" and piece.bitlength > 8 else piece.bitstart', ["C05"]),
+    ("dbc-signed-inverted-enum", "plugins/fcp_dbc/fcp_dbc/dbc_writer.py", "is_signed=piece.type.is_signed(),", "is_signed=piece.type.is_signed() or piece.bitlength == 13,", ["C05"]),
+    ("dbc-dlc-floor", "plugins/fcp_dbc/fcp_dbc/dbc_writer.py", "dlc = ceil((piece.bitstart + piece.bitlength) / 8)", "dlc = max(1, (piece.bitstart + piece.bitlength) // 8)", ["C05", "C14"]),
+    ("dbc-mux-ids-from-1", "plugins/fcp_dbc/fcp_dbc/dbc_writer.py", "list(range(0, mux_count))", "list(range(1, mux_count + 1))", ["C05"]),
+    ("dbc-bus-default-changed", "plugins/fcp_dbc/fcp_dbc/dbc_writer.py", 'bus = impl.get_field("bus", "default").unwrap()', 'bus = impl.get_field("bus", "default").unwrap() if impl.name == impl.type else "default"', ["C05"]),
+    ("dbc-limit-72", "plugins/fcp_dbc/fcp_dbc/dbc_writer.py", "if msg_bitlength > 64:", "if msg_bitlength > 72:", ["C14"]),
+    ("dbc-limit-first-piece", "plugins/fcp_dbc/fcp_dbc/dbc_writer.py", "msg_bitlength = encoding[-1].bitstart + encoding[-1].bitlength", "msg_bitlength = encoding[0].bitstart + encoding[-1].bitlength", ["C14"]),
+    ("dbc-float-only-f32", "plugins/fcp_dbc/fcp_dbc/dbc_writer.py", "is_float=isinstance(piece.type, (FloatType, DoubleType))", "is_float=isinstance(piece.type, FloatType)", ["C05"]),
+    ("layout-dyn-zero-length", E, '            raise ValueError("Error computing type length for type " + str(type))', "            return 0", ["C14"]),
     ("serde-array-last-elem", S, "    for i in range(type.size):\n        _encode(buffer, fcp, type.underlying_type, data[i])", "    for i in range(type.size):\n        _encode(buffer, fcp, type.underlying_type, data[min(i, 1)])", ["C01", "C02"]),
 ]
 
